@@ -20,12 +20,12 @@ JOBS = 14
 SPEC_TIMEOUT = 900
 CONFIRM_ALONE = ('loss_reported_late', 'loss_never_reported', 'worker_not_replaced',
                  'later_job_not_served', 'pool_hung_after_worker_death', 'other_job_failed',
-                 'pool_hung_while_recycling')
+                 'pool_hung_while_recycling', 'join_hung_after_worker_death')
 FLOORS = {
     'quick': {'sim:loss_marks': 300, 'sim:exit:crash': 1500, 'sim:exit:recycle': 100,
               'sim:supervise_with_exits': 800, 'sim:submit_map': 100, 'sim:submit_imap': 50,
               'real:death_scenarios': 15, 'real:losses_reported': 12, 'real:other_jobs': 8,
-              'real:recycle_scenarios': 2},
+              'real:recycle_scenarios': 2, 'real:death_after_close_scenarios': 2},
     'thorough': {'sim:loss_marks': 3000, 'sim:exit:crash': 15000},
 }
 
